@@ -161,6 +161,7 @@ def parseParams (js : String) : Params :=
     gate := jsonField js "gate" == "true",
     expiry := jsonField js "expiry" != "",
     errs := jsonField js "errs" == "true",
+    noIdBatch := jsonField js "noidbatch" == "true",
     ctx := jsonField js "ctx" == "true",
     outcomes := parseNatList (jsonArrayField js "outcomes"),
     queues := (let a := jsonArrayField js "queues"; let inner := ((a.drop 1).dropEnd 1).toString
